@@ -27,8 +27,12 @@ func main() {
 		only   = flag.Int("only", -1, "internal")
 		out    = flag.String("out", "", "internal")
 		list   = flag.Bool("list", false, "list properties")
+		aux    = flag.String("aux", "", "internal: run one auxiliary function on stdin in this fresh process and print its result")
 	)
 	flag.Parse()
+	if *aux != "" {
+		os.Exit(core.RunAux(*aux))
+	}
 	if d := os.Getenv("VERIF_DIR"); d != "" {
 		core.VerifDir = d
 	}
